@@ -16,6 +16,7 @@ namespace CR.Drv.C05
   Light   {"p":Pt,"lsh": null|Shape}
   Scen    {"lanelets","signs":[Pt],"lights":[Light],"obstacles","areas":[[[Pt]]]}
   Problem {"init":State,"goal":[State]}
+  ProblemSet {"goals":[[State]],"problems":[{"init":State,"goal":Nat}]}   (goal = index of the GoalRegion object held)
 -/
 
 def ptOf (j : Json) : P Pt := do
@@ -199,6 +200,11 @@ def moveOne (m : Mo) (j : Json) : P Json := do
   | "problems" => do
     let l ← listOf probOf v
     pure (resJ (listJ probJ) (moveProblems m l))
+  | "problemset" => do      -- the set as objects: {"goals": [[State]] (one entry per GoalRegion OBJECT), "problems": [{"init", "goal": index}]}
+    let goals ← getList (listOf stateOf) v "goals"
+    let probs ← getList (fun j => do pure ((← stateOf (← field j "init")), (← getNat j "goal"))) v "problems"
+    if probs.any (fun p => p.2 ≥ goals.length) then throw "C05: problemset: goal index out of range"
+    pure (resJ (listJ probJ) (match ProblemSet.move m ⟨goals, probs⟩ with | .error e => .error e | .ok ps' => .ok ps'.view))
   | k => throw s!"C05: unknown object kind {k}"
 
 def handle (op : String) (a : Json) : P Json := do
